@@ -22,12 +22,16 @@ def configs(tier):
     def add(sp, mode=0):
         cs.append(Config(short(sp) + ('-values' if mode else ''), 'C02', [sp, mode], max_paths=1))
     if tier == 'quick':
-        add(spec('global', 'clenshaw-curtis', 2, 1, 3)); add(spec('global', 'gauss-legendre', 2, 1, 3, 'qptotal')); add(spec('global', 'gauss-patterson', 2, 1, 2))
-        add(spec('global', 'chebyshev', 2, 1, 2)); add(spec('global', 'chebyshev', 1, 1, 3)); add(spec('global', 'fejer2', 2, 1, 3, transform=1)); add(spec('global', 'clenshaw-curtis-zero', 2, 1, 2))
-        add(spec('global', 'gauss-chebyshev1', 2, 1, 3)); add(spec('global', 'gauss-chebyshev2', 1, 1, 4, transform=1)); add(spec('global', 'gauss-gegenbauer', 2, 1, 2, alpha=0.5))
-        add(spec('global', 'gauss-jacobi', 1, 1, 3, alpha=0.5, beta=1.5, transform=1)); add(spec('global', 'gauss-laguerre', 2, 1, 2, alpha=1.5, transform=1)); add(spec('global', 'gauss-hermite', 2, 1, 3, alpha=2.0))
-        add(spec('global', 'leja', 2, 1, 4, 'qpcurved', aniso=1)); add(spec('global', 'rleja-odd', 2, 1, 3)); add(spec('global', 'min-delta', 3, 1, 2, limits=1))
-        add(spec('sequence', 'rleja', 2, 1, 4)); add(spec('sequence', 'min-lebesgue', 2, 1, 4, 'qptotal', transform=1)); add(spec('sequence', 'leja', 3, 1, 3))
+        # every rule in 1-D up to a depth that reaches all table entries with <= 13 points, and in 2-D at a small depth (each configuration costs ~0.1 s)
+        for rule in NESTED_GLOBAL + NON_NESTED:
+            for (a, b) in JAC.get(rule, [(None, None)])[:1]:
+                fast = rule in ('clenshaw-curtis', 'clenshaw-curtis-zero', 'fejer2', 'gauss-patterson', 'rleja-double2', 'rleja-shifted-double')
+                jac_general = rule.startswith('gauss-jacobi') and a != b
+                add(spec('global', rule, 1, 1, 3 if fast else (3 if jac_general else (6 if rule == 'rleja-double4' else 5)), alpha=a, beta=b))
+                add(spec('global', rule, 2, 1, 2 if fast else 3, 'level', transform=(1 if rule in ('fejer2', 'gauss-chebyshev2', 'gauss-laguerre', 'gauss-jacobi') else 0), alpha=a, beta=b))
+        add(spec('global', 'gauss-legendre', 2, 1, 3, 'qptotal')); add(spec('global', 'leja', 2, 1, 4, 'qpcurved', aniso=1)); add(spec('global', 'min-delta', 3, 1, 2, limits=1))
+        for rule in SEQUENCE_RULES: add(spec('sequence', rule, 2, 1, 4)); add(spec('sequence', rule, 1, 1, 6, transform=1))
+        add(spec('sequence', 'min-lebesgue', 2, 1, 4, 'qptotal', transform=1)); add(spec('sequence', 'leja', 3, 1, 3))
         add(spec('fourier', 'fourier', 2, 1, 2)); add(spec('fourier', 'fourier', 1, 1, 3, transform=1))
         add(spec('global', 'clenshaw-curtis', 2, 2, 3), 1); add(spec('sequence', 'leja', 2, 2, 3), 1); add(spec('fourier', 'fourier', 2, 1, 2), 1); add(spec('global', 'gauss-legendre', 2, 1, 2), 1)
     else:
@@ -36,7 +40,7 @@ def configs(tier):
             for (a, b) in abl:
                 fast = rule in ('clenshaw-curtis', 'clenshaw-curtis-zero', 'fejer2', 'gauss-patterson', 'rleja-double2', 'rleja-double4', 'rleja-shifted-double')
                 jac_general = rule.startswith('gauss-jacobi') and a != b    # oracle: alternating binomial sum in long double, keep the degree <= 13
-                for d, l in ((1, 4 if fast else (3 if jac_general else 6)), (2, 3 if fast else (3 if jac_general else 4)), (3, 2)):
+                for d, l in ((1, (6 if rule == 'rleja-double4' else 4) if fast else (3 if jac_general else 6)), (2, 3 if fast else (3 if jac_general else 4)), (3, 2)):
                     for tr in (0, 1):
                         add(spec('global', rule, d, 1, l, 'level', transform=tr, alpha=a, beta=b))
                 add(spec('global', rule, 2, 1, 3 if (fast or jac_general) else 5, 'qptotal', aniso=1, alpha=a, beta=b))
